@@ -16,7 +16,7 @@ MANIFEST = dict(
          "the lock is held for at most retry x (timeout + 100 ms + pause) (holder_time_bounded, potential-function invariant) and a free lock with parked callers is handed "
          "over before time passes. Tie = trace validation: real GeckoAsyncUdpProtocol.get with seeded concurrent callers of mixed retry/timeout on the virtual-time loop, "
          "scripted replies (prompt / late / never / wrong verb); every observed call, lock hand-off, poll, send, pause end and return must be enabled in the model and "
-         "agree with its send log and results. Gating is checked on the real GeckoAsyncSpa entry points. Session 4: an arrival-order monitor (no later caller is transmitted while an earlier caller has not completed). The lock shape of get() is a theorem over its regenerated suspension skeleton (get_lock_shape: every transmission while the caller holds the lock, the lock taken once per call, for every trace). Also the multi-segment request (GeckoAsyncStructure.get): every attempt consumes retry budget in both gets (every_attempt_consumes_budget over the regenerated skeletons) and the partial-loss pattern (a middle segment lost every time, the final one arriving) is driven on the real code. The answering-pings gate is searched with the real ping loop against a spa that stops answering, after silences of 150 s to two days (a week in the thorough tier), on a virtual clock that also drives time.time and datetime.now. A query whose replies are all lost while the spa keeps sending unsolicited partial updates (the connection`s consumers running); request_clock_is_the_handlers_own. Session 5: unwrapper_overwrites_its_fields_for_every_datagram (every normal end of GeckoPacketProtocolHandler.handle assigns addressing and content: nothing of the previous datagram survives; everyNormalEndDid_sound), and stray traffic on the real consumers: after an answered query the spa goes quiet for that verb while malformed framings, packets for another client or from another host and garbage arrive - the query reports failure after exactly its retry count; then the spa falls silent under the same strays and the answering-pings gate closes. The silence scenario also runs with the WALL clock stepped back an hour when the spa falls silent (vloop.WALL_SHIFT moves time.time / datetime.now without the monotonic clock). Round 14: the retransmissions of the real connection sequence (first transmission of every handshake request lost / one segment lost): new sequence number per attempt of one connection, attempts a timeout apart unless answered. Round 15: addressed STATP traffic during the silent phase of the stray-traffic scenario - the ping gate closes although the spa keeps talking.",
+         "agree with its send log and results. Gating is checked on the real GeckoAsyncSpa entry points. Session 4: an arrival-order monitor (no later caller is transmitted while an earlier caller has not completed). The lock shape of get() is a theorem over its regenerated suspension skeleton (get_lock_shape: every transmission while the caller holds the lock, the lock taken once per call, for every trace). Also the multi-segment request (GeckoAsyncStructure.get): every attempt consumes retry budget in both gets (every_attempt_consumes_budget over the regenerated skeletons) and the partial-loss pattern (a middle segment lost every time, the final one arriving) is driven on the real code. The answering-pings gate is searched with the real ping loop against a spa that stops answering, after silences of 150 s to two days (a week in the thorough tier), on a virtual clock that also drives time.time and datetime.now. A query whose replies are all lost while the spa keeps sending unsolicited partial updates (the connection`s consumers running); request_clock_is_the_handlers_own. Session 5: unwrapper_overwrites_its_fields_for_every_datagram (every normal end of GeckoPacketProtocolHandler.handle assigns addressing and content: nothing of the previous datagram survives; everyNormalEndDid_sound), and stray traffic on the real consumers: after an answered query the spa goes quiet for that verb while malformed framings, packets for another client or from another host and garbage arrive - the query reports failure after exactly its retry count; then the spa falls silent under the same strays and the answering-pings gate closes. The silence scenario also runs with the WALL clock stepped back an hour when the spa falls silent (vloop.WALL_SHIFT moves time.time / datetime.now without the monotonic clock). Round 14: the retransmissions of the real connection sequence (first transmission of every handshake request lost / one segment lost): new sequence number per attempt of one connection, attempts a timeout apart unless answered. Round 15: addressed STATP traffic during the silent phase of the stray-traffic scenario - the ping gate closes although the spa keeps talking. Round 16: the lock is instrumented on the connection's own lock object (acquire / release), not on a class name; callers CANCELLED while queueing for the connection (search_cancelled_waiter): nobody releases what he does not hold, one request in flight, every other caller gets its reply.",
     note="partial: time bounds hold under the fairness hypothesis (no event-loop stall), with one polling interval of slack per attempt; asyncio.Lock FIFO hand-off and "
          "'no pre-emption between awaits' are assumed (exercised by the traces). Known finding D12: the connected/ping gates are evaluated once at call entry, so a call "
          "parked on the lock can transmit after pings have gone stale.",
@@ -54,23 +54,24 @@ def run_scenario(sc, seed, shuffle, jitter):
         proto.connection_made(ft)
         cur = {}          # task -> caller id
         attempts = {}     # caller id -> number of sends
-        # --- lock instrumentation (DbgLock is the library's own subclass)
-        L = aup.DbgLock
-        o_enter, o_exit = L.__aenter__, L.__aexit__
+        # --- lock instrumentation: on the connection's own lock object, whatever its class (the library's DbgLock subclass, a plain
+        #     asyncio.Lock ...) and however it is taken (`async with` goes through acquire / release as well)
+        lk = proto.Lock
+        o_acquire, o_release = lk.acquire, lk.release
 
-        async def aenter(self):
+        async def acquire():
             t = asyncio.current_task()
             cid = cur.get(t)
-            parked = self.locked() or bool(self._waiters)
+            parked = lk.locked() or bool(getattr(lk, "_waiters", None))
             tr.add("lock-wait" if parked else "lock-free", cid)
-            r = await o_enter(self)
+            r = await o_acquire()
             tr.add("acquired", cid, parked)
             return r
 
-        async def aexit(self, *a):
+        def release():
             tr.add("released", cur.get(asyncio.current_task()))
-            return await o_exit(self, *a)
-        L.__aenter__, L.__aexit__ = aenter, aexit
+            return o_release()
+        lk.acquire, lk.release = acquire, release
         o_send = ft.sendto
 
         def sendto(data, addr=None):
@@ -102,6 +103,8 @@ def run_scenario(sc, seed, shuffle, jitter):
             try:
                 h = await proto.get(mk, None, c["retry"])
                 results[c["id"]] = ("reply", getattr(h, "_verif_reply", None)) if h is not None else ("none", None)
+            except asyncio.CancelledError:
+                results[c["id"]] = ("cancelled", None)          # (only callers with a "cancel_at" are ever cancelled)
             except Exception as e:  # noqa
                 results[c["id"]] = ("raised", f"{type(e).__name__}: {e}")
             tr.add("return", c["id"], results[c["id"]])
@@ -109,6 +112,9 @@ def run_scenario(sc, seed, shuffle, jitter):
             try:
                 ut = asyncio.ensure_future(GeckoUnhandledProtocolHandler().consume(proto))
                 tasks = [asyncio.ensure_future(caller(c)) for c in sc["callers"]]
+                for c, t_ in zip(sc["callers"], tasks):
+                    if c.get("cancel_at") is not None:
+                        loop.call_later(c["cancel_at"] / 1000.0, t_.cancel)
                 horizon = max(c["at"] for c in sc["callers"]) / 1000.0 + sum(c["retry"] * (c["timeout"] + 100 + sc["pause"]) for c in sc["callers"]) / 1000.0 + 5
                 done, pending = await asyncio.wait(tasks, timeout=horizon)
                 res["pending"] = len(pending)
@@ -116,7 +122,7 @@ def run_scenario(sc, seed, shuffle, jitter):
                     t.cancel()
                 ut.cancel()
             finally:
-                L.__aenter__, L.__aexit__ = o_enter, o_exit
+                pass
         res["trace"], res["results"], res["cur"] = tr, results, cur
     vloop.run_virtual(body, seed=seed, shuffle=shuffle, jitter=jitter)
     return res
@@ -704,6 +710,52 @@ def search_struct_get(ctx):
     ctx.cov["struct_get_partial_loss_runs"] = n
 
 
+def search_cancelled_waiter(ctx, only=None):
+    """a caller that is CANCELLED while it waits for the connection (a time-limited call of the client, a task cancelled by a reset) must not
+    disturb the others: A's exchange is under way (its reply comes late), B queues and is cancelled there, C arrives - still one request in
+    flight at a time, A and C get their replies, nobody raises. All orders of B's cancellation and C's arrival, one or two cancelled waiters"""
+    cases = []
+    for b_cancel, c_at in ((50, 100), (50, 20), (150, 100), (20, 20)):
+        cases.append([{"id": 1, "at": 0, "retry": 2, "timeout": 400, "replies": [300]},
+                      {"id": 2, "at": 10, "retry": 2, "timeout": 400, "replies": [30], "cancel_at": b_cancel},
+                      {"id": 3, "at": c_at, "retry": 2, "timeout": 400, "replies": [30]}])
+    cases.append([{"id": 1, "at": 0, "retry": 2, "timeout": 400, "replies": [300]},
+                  {"id": 2, "at": 10, "retry": 2, "timeout": 400, "replies": [30], "cancel_at": 40},
+                  {"id": 3, "at": 15, "retry": 2, "timeout": 400, "replies": [30], "cancel_at": 60},
+                  {"id": 4, "at": 80, "retry": 2, "timeout": 400, "replies": [30]}])
+    for ci, callers in enumerate(cases):
+        if only is not None and only != ci:
+            continue
+        sc = {"pause": 50, "callers": callers}
+        try:
+            res = run_scenario(sc, 0, False, 0)
+        except Exception as e:  # noqa
+            ctx.violation("cancelled-waiter:raised", {"kind": "cancelled-waiter", "case": ci}, "the scenario runs", f"{type(e).__name__}: {e}")
+            continue
+        ctx.count("evaluations")
+        ctx.hist("cancelled_waiter", f"case {ci}")
+        holders, probs = [], []
+        for (t, kind, who, payload) in res["trace"].ev:
+            if kind == "acquired":
+                holders.append(who)
+            elif kind == "released":
+                if who in holders:
+                    holders.remove(who)
+                else:
+                    probs.append(f"t={t} ms: caller {who} released the connection without holding it (held by {holders})")
+            elif kind == "send" and holders != [who]:
+                probs.append(f"t={t} ms: caller {who} transmits while the connection is held by {holders}")
+        for c in callers:
+            r = res["results"].get(c["id"])
+            want = "cancelled" if c.get("cancel_at") is not None else "reply"
+            if r is None or r[0] != want:
+                probs.append(f"caller {c['id']} ends with {r} instead of {want}")
+        if probs:
+            ctx.violation("cancelled-waiter:disturbs-the-others", {"kind": "cancelled-waiter", "case": ci, "callers": callers},
+                          "one request in flight at a time; every caller that is not cancelled gets its reply", probs[:4])
+            return
+
+
 def run(ctx):
     st = translate.run(["Skeletons"])
     ctx.cov["translator"] = st
@@ -754,6 +806,7 @@ def run(ctx):
     search_gate(ctx)
     search_gate_silence(ctx)
     search_chatter(ctx)
+    search_cancelled_waiter(ctx)
     try:
         search_strays(ctx)
     except Exception as e:  # noqa
@@ -803,6 +856,8 @@ def replay(inp):
             c["replies"] = [tuple(r) if isinstance(r, list) else r for r in c["replies"]]
         res = _run(sc, inp["seed"], inp["fair"])
         monitors(ctx, sc, res, inp["fair"], inp)
+    elif inp.get("kind") == "cancelled-waiter":
+        search_cancelled_waiter(ctx, only=inp["case"])
     elif inp.get("kind") == "struct-get":
         search_struct_get(ctx)
     elif inp.get("kind") == "chatter":
